@@ -296,6 +296,11 @@ func gen(r *rng.R, tier string) fw.Case {
 	default:
 		g.paths = flatPaths
 		g.tag("paths-flat")
+		if seed == 2 && r.Chance(1, 2) {
+			// a change of the path the configuration was created with
+			g.paths = append(append([]string{}, flatPaths...), "/seed")
+			g.tag("paths-created")
+		}
 	}
 	g.add("v3.init seed=%d", seed)
 	// usually start with a healthy topology
